@@ -166,9 +166,21 @@ def run_traversals(chk: Check, prog: Program) -> None:
             for o in ORDERS:
                 it.hooks[f"BinaryTreeNode.{o}"] = rec_hook(o)
             it.hooks["opaque-call"] = opaque_call
+            if getattr(it, "use_default_depth", False):
+                return it.call_function(m, [node, fn], {"data": data})
             return it.call_function(m, [node, fn, d0, data], {})
 
+        def body_default(it: Interp, body=body):
+            it.use_default_depth = True
+            return body(it)
+
         results = explore(prog, body, {"tree_mode": "binary", "max_updepth": 0, "max_downdepth": 3})
+        for p in explore(prog, body_default, {"tree_mode": "binary", "max_updepth": 0, "max_downdepth": 1}):
+            if p.outcome != "return":
+                continue
+            probs = check_trace(p.interp, order, p.interp.arg.cid, A.lit(0), p.interp.trace, p.value)
+            chk.verdict(not probs, "C14.R1", f"C14.R1:{name}:default-depth", f"{name} called without a depth: {p.cond}",
+                        "; ".join(probs), witness={"problems": probs}, where=m.where)
         for p in results:
             it = p.interp
             shape = p.cond
@@ -304,9 +316,14 @@ def run_queries(chk: Check, prog: Program) -> None:
             chk.verdict(not probs, "C14.R5", f"C14.R5:{fname}", f"{fname}: {p.cond}", "; ".join(probs),
                         witness={"configuration": p.cond}, where=mm.where)
 
+    def _unread(it):
+        return [s for s in ("left", "right") if _field(it, it.arg.cid, s) is _MISSING]
+
     def j_children(it, p):
         if p.outcome != "return" or not isinstance(p.value, Lst):
             return [f"{p.outcome} {p.exc}"]
+        if _unread(it):
+            return [f"never looks at the {_unread(it)[0]} child: a node that has one gets the wrong answer"]
         want = [v.cid for v in (_field(it, it.arg.cid, "left"), _field(it, it.arg.cid, "right")) if isinstance(v, Node)]
         got = [x.cid for x in p.value.items if isinstance(x, Node)]
         return [] if got == want else [f"returns {got}, children (left first) are {want}"]
@@ -315,6 +332,8 @@ def run_queries(chk: Check, prog: Program) -> None:
     def j_leaf(it, p):
         if p.outcome != "return":
             return [f"{p.outcome} {p.exc}"]
+        if p.value is True and _unread(it):
+            return [f"answers 'leaf' without looking at the {_unread(it)[0]} child"]
         has = any(isinstance(_field(it, it.arg.cid, s), Node) for s in ("left", "right"))
         return [] if p.value == (not has) else [f"is_leaf returns {p.value!r} for a node with{'' if has else 'out'} children"]
     run_local("is_leaf", lambda it, n: [], j_leaf)
